@@ -331,10 +331,10 @@ class Report:
                 print('VIOLATION property=%s replay=%s' % (self.pid, path))
                 print('  what: %s [%s]' % (desc, key))
                 rc = 1
+        for m in self.inconclusive:
+            print('INCONCLUSIVE: ' + m)
         if self.inconclusive and rc == 0:
             rc = 2
-            for m in self.inconclusive:
-                print('INCONCLUSIVE: ' + m)
         nq = len(self.queries)
         nontriv = {(q['unit'], q['name']) for q in self.queries if not q.get('trivial')}
         discharged = sum(1 for q in self.queries if q['result'] == 'unsat' and q.get('expect', 'unsat') == 'unsat') + \
